@@ -2356,8 +2356,9 @@ static int sp_dsyrk(char uplo, char trans, number alpha, void *a,
     }
     free(Z->colptr); Z->colptr = colptr_new;
 
+    int ldA = MAX(1, (trans == 'N' ? n : k));
     syrk[DOUBLE](&uplo, &trans, &n, &k, &alpha, A,
-        (trans == 'N' ? &n : &k), &Zero[DOUBLE], C_, &n);
+        &ldA, &Zero[DOUBLE], C_, &n);
 
     for (j=0; j<n; j++) {
       for (i=Z->colptr[j]; i<Z->colptr[j+1]; i++) {
